@@ -168,7 +168,7 @@ func (c *ctx) takeK(v iterView, n, k int) (taken []string, ok bool) {
 		}
 		taken = append(taken, key)
 		if l := v.it.Len(); l != n-i {
-			if v.offByOne && l == n-i+1 {
+			if v.offByOne && n-i >= 0 && l == n-i+1 {
 				c.findingf(classLenOffByOne, "%s (%T): Len()=%d after %d of %d items were taken with Next, want %d remaining", v.name(), v.it, l, i, n, n-i)
 			} else {
 				c.failf("%s n=%d: Len()=%d after %d items, want %d", v.name(), n, l, i, n-i)
